@@ -40,6 +40,7 @@ OPS = [
     {"op": "version"}, {"op": "quit"}, {"op": "set_many", "values": {"a": b"1", "b": b"2"}, "noreply": False}, {"op": "get", "key": "x4"},
     {"op": "stats"}, {"op": "flush_all", "noreply": False}, {"op": "delete_many", "keys": ["a", "b"], "noreply": False},
     {"op": "close"}, {"op": "disconnect_all"},      # the pool is emptied; the object is used again afterwards
+    {"op": "copy_drop", "set": {"ignore_exc": True}},      # a shallow copy of the object is made and garbage-collected
 ]
 
 
@@ -57,7 +58,7 @@ def check(case):
         pool = run.client.client_pool
         now_end = run.env.clock.now
         # idle time is judged at the checkout, i.e. at the start of the call (the call itself may take time)
-        now = (st_["last_release"] if st_["last_release"] is not None else now_end) + (call.get("advance") or 0) if st_["last_release"] is not None else now_end
+        now = (st_["last_release"] if st_["last_release"] is not None else now_end) + st_.get("carry", 0) + (call.get("advance") or 0) if st_["last_release"] is not None else now_end
         evs = net.log[st_["pos"]:]
         st_["pos"] = len(net.log)
         where = "call %d %r (outcome %r) of history %r; cfg %r" % (i, call["op"], c01._short(out), hist(), cfg)
@@ -79,6 +80,14 @@ def check(case):
         fired_real = [f for f in fired if f["fault"].get("kind") != "close"]
         live = st_["live"]
         sockets = {s.id: s for s in net.sockets}
+        if call["op"]["op"] == "copy_drop":
+            # nothing was checked out: the pool is as it was (idle time keeps running from the last release)
+            if out[0] != "ok" or evs:
+                raise Violation(["copy-touched-the-connection"], "making and dropping a shallow copy of the object caused socket events %r: %s" % ([e[3] for e in evs][:4], where))
+            labels.add("copy-made-and-dropped")
+            st_["carry"] = st_.get("carry", 0) + (call.get("advance") or 0)
+            return
+        st_["carry"] = 0
         if live is not None:
             expired = bool(idle) and (now - st_["last_release"]) > idle
             if expired:
@@ -162,7 +171,7 @@ def sweep_cases(tier, seed):
                                    "calls": [{"op": OPS[0]}, {"op": OPS[2], "advance": gap}, {"op": OPS[4], "advance": gap}, {"op": OPS[0], "advance": gap}]}
                 # idle-gap sweep
                 for gap in (0, 4, 5, 6, 15):
-                    for r in (OPS[0], OPS[2], OPS[10], OPS[16], OPS[17]):
+                    for r in (OPS[0], OPS[2], OPS[10], OPS[16], OPS[17], OPS[18]):
                         yield {"kind": "pooled", "cfg": cfg, "calls": [{"op": OPS[0]}, {"op": r, "advance": gap}, {"op": OPS[2], "advance": gap}, {"op": OPS[3]}]}
                         if r["op"] in ("close", "disconnect_all", "quit"):
                             yield {"kind": "pooled", "cfg": cfg, "calls": [{"op": OPS[0]}, {"op": r, "advance": gap}, {"op": OPS[2]}, {"op": r}, {"op": r}, {"op": OPS[0], "advance": gap}, {"op": OPS[4]}, {"op": OPS[3]}]}
